@@ -11,7 +11,8 @@ TEXTS = ["Jane Doe", "José Ñandú", "山田 太郎", "O'Brien & Sons <dit>", "
 EMAILS = ["jane@example.com", "a.b-c+d@sub.example.org", "x@y.zz"]
 PHONES = ["+1 555 0100", "0049-30-123456", "12345"]
 ROLES = ["DIT", "Data Wrangler", "Loader & <Runner>", "助手"]
-PATTERNS = ["*.bak", "tmp*", "cache/", "notes", "*.xml", "z9", "sub/", "*.jpg", "d1", "clip0?.mov"]
+PATTERNS = ["*.bak", "tmp*", "cache/", "notes", "*.xml", "z9", "sub/", "*.jpg", "d1", "clip0?.mov", "!d1", "!sub", "*.mov",
+            "A/B/*.bin", "/d1/notes"]
 
 
 def _creator_args(rng):
